@@ -274,6 +274,78 @@ def deep_tree(s, rng):
             break
 
 
+SIB_STEMS = [b"p:a|", b"p:ab|", b"p:a~|", b"p:b|", b"p:a\xc3\xa9|", b"p:" + b"x" * 80 + b"|", b"p:" + b"x" * 80 + b"a|", b"p:aa|"]
+
+
+def _perm_worker(job):
+    """every query of the property's facet after inserting sibling stems in one given order (tree shape)"""
+    seed, cfg = job
+    import session as S
+    rng = random.Random(seed)
+    s = S.Session(rng, "f")
+    try:
+        s.do(1, [0, []])
+        base = b"s:http|h:com|h:perm|"
+        s.do(6, [[base]])
+        for st in cfg["order"]:
+            s.do(2, [base + st, rng.randint(0, 1)])
+            if rng.random() < 0.3:
+                s.do(2, [base + st + b"p:k|", 0])
+        focus = cfg["focus"]
+        if 26 in focus:
+            wes = s.webentities()
+            for w, ps in wes.items():
+                for k in (1, 2, 3):
+                    s.paginate_pages(w, ps, k, 0, True)
+                break
+        s.observe(2 if (24 in focus or 26 in focus) else 1, focus)
+        mm = s.finish(bytes_facet=43 in focus)
+        res = {"seed": seed, "ncmds": len(s.cmds), "stats": {"perm_histories": 1}, "mismatches": [],
+               "digest": hash(tuple(cfg["order"])) & 0xFFFFFFFF, "nontrivial": True}
+        for m in mm:
+            j = m.to_json()
+            j["props"] = sorted(K.mismatch_props(m, s.cmds))
+            res["mismatches"].append(j)
+        if mm:
+            res["script"] = K.ser_cmds(s.cmds)
+            res["metas"], res["groups"] = s.meta, s.groups
+        return res
+    except Exception as e:
+        import traceback
+        return {"seed": seed, "error": "%s: %s" % (type(e).__name__, e), "trace": traceback.format_exc()[-600:],
+                "mismatches": [], "stats": {}, "ncmds": 0, "digest": 0, "nontrivial": False}
+    finally:
+        s.close()
+
+
+def perm_sweep(nstems):
+    """all insertion orders of a small family of sibling stems (exhaustive in the thorough tier)"""
+    def run(prop, tier, seed):
+        import itertools
+        rng = random.Random(seed + 3)
+        stems = rng.sample(SIB_STEMS, nstems)
+        perms = list(itertools.permutations(stems))
+        if tier != "thorough":
+            rng.shuffle(perms)
+            perms = perms[:40]
+        jobs = [(seed + i, {"order": list(pm), "focus": K.FACET_OPS[prop]}) for i, pm in enumerate(perms)]
+        results = pool_map(_perm_worker, jobs)
+        v, k = classify(prop, results, seed)
+        return v, {"sibling_permutations": len(perms), "sibling_permutations_exhaustive": tier == "thorough"}
+    return run
+
+
+def both_sweeps(*fs):
+    def run(prop, tier, seed):
+        v, cov = [], {}
+        for f in fs:
+            v1, c1 = f(prop, tier, seed)
+            v += v1
+            cov.update(c1)
+        return v, cov
+    return run
+
+
 PROPS = {}
 
 
@@ -287,17 +359,19 @@ def reg(pid, theorems, focus, nq=480, nt=30000, nw=25, depth=1, mixkw=None, extr
 
 
 reg("C01", ["C01_pages_perm", "C01_count_pages", "C01_reports"], K.FACET_OPS["C01"], weird=0.3)
-reg("C02", ["C02_find_known", "C02_windup", "C02_stem_roundtrip"], K.FACET_OPS["C02"], sweep=helper_sweep(["chunks", "lru"]), weird=0.45)
+reg("C02", ["C02_find_known", "C02_windup", "C02_stem_roundtrip"], K.FACET_OPS["C02"], sweep=both_sweeps(helper_sweep(["chunks", "lru"]), perm_sweep(5)), weird=0.45)
 reg("C03", ["C03_out", "C03_in", "C03_count"], K.FACET_OPS["C03"], mixkw={"add_links": 30, "batch": 20})
 reg("C04", ["C04_resolve", "C04_prefmap"], K.FACET_OPS["C04"],
     mixkw={"create_we": 16, "delete_we": 10, "add_prefix": 12, "remove_prefix": 10, "move_prefix": 8})
-reg("C05", ["C05_under"], K.FACET_OPS["C05"], mixkw={"create_we": 16, "add_prefix": 10})
+reg("C05", ["C05_we_pages", "C05_partition", "C05_exactly_once"], K.FACET_OPS["C05"], mixkw={"create_we": 16, "add_prefix": 10},
+    sweep=perm_sweep(5))
 reg("C06", ["C06_create", "C06_potential", "C06_rule_install"], K.FACET_OPS["C06"], mixkw={"add_rule": 14, "remove_rule": 4},
     sweep=helper_sweep(["rule"]))
 reg("C07", ["C07_net"], K.FACET_OPS["C07"], depth=2, nq=320, mixkw={"add_links": 30, "batch": 20, "create_we": 14})
 reg("C08", ["C08_pagelinks"], K.FACET_OPS["C08"], mixkw={"add_links": 30, "batch": 20, "create_we": 14})
 reg("C09", ["C09_token_roundtrip", "C09_sorted_pages", "C09_chunks", "C09_stable_chain"], K.FACET_OPS["C09"],
-    mixkw={"add_page": 50, "add_pages": 20, "create_we": 14}, sweep=helper_sweep(["token"]), extra=[deep_tree])
+    mixkw={"add_page": 50, "add_pages": 20, "create_we": 14}, sweep=both_sweeps(helper_sweep(["token"]), perm_sweep(6)),
+    extra=[deep_tree])
 reg("C10", ["C10_chunks", "C10_same_links"], K.FACET_OPS["C10"], mixkw={"add_links": 35, "batch": 20, "create_we": 14},
     extra=[deep_tree])
 reg("C12", ["C12_fresh"], set(), mixkw={"create_we": 16, "delete_we": 10, "add_rule": 10, "reopen": 10})
